@@ -58,6 +58,8 @@ InvalidComponent: ...
 '123456789'
 >>> format('111223333')
 '111-22-3333'
+>>> format('11122333')  # not a 9-digit number
+'11122333'
 """
 
 import re
